@@ -62,10 +62,14 @@ func NewHost(rtt uint64) *Host {
 
 // NewDrummerDBHost starts a NodeHost running a single-replica Drummer DB
 // (shard 0) and waits until it has a leader.
-func NewDrummerDBHost() *Host {
+func NewDrummerDBHost() *Host { return NewDrummerDBHostLimit(0) }
+
+// NewDrummerDBHostLimit: as NewDrummerDBHost, with the shard's MaxInMemLogSize set (0 = unlimited) so that oversized
+// proposals are refused by dragonboat (ErrPayloadTooBig / ErrSystemBusy): a way to make an update fail.
+func NewDrummerDBHostLimit(maxInMem uint64) *Host {
 	h := NewHost(2)
 	if err := h.NH.StartReplica(map[uint64]string{1: h.Addr}, false, drummer.NewDB,
-		config.Config{ReplicaID: 1, ShardID: 0, ElectionRTT: 10, HeartbeatRTT: 1}); err != nil {
+		config.Config{ReplicaID: 1, ShardID: 0, ElectionRTT: 10, HeartbeatRTT: 1, MaxInMemLogSize: maxInMem}); err != nil {
 		panic(err)
 	}
 	for i := 0; i < 2000; i++ {
